@@ -129,9 +129,8 @@ P06(def, obs, mobs) ==
   obs.outcome = "Ok" =>
      LET cs == CmdChain(Build(def, NoInherit), obs.chain, 1) IN
      /\ (~def.s.ignore_errors => OriginCli(obs, mobs))
-     /\
      \* globals copied between levels are judged by C09
-     \A i \in 1..Len(cs) :
+     /\ \A i \in 1..Len(cs) :
         /\ P06Level([cs[i] EXCEPT !.args = SelectSeq(@, LAMBDA a : ~a.global)], obs.chain[i], def.s.ignore_errors)
         \* only *defaults* are invisible to conflicts / requirements / presence: an environment value is an explicit
         \* origin, so with one present the level's relations (through its groups too) are enforced as for the command line
